@@ -751,6 +751,29 @@ def pending_inputs(fns):
     return rows
 
 
+def inner_calls(fns):
+    """Calls `<obj>.inner.<method>(<args>)` of exported functions: which value each simple setter hands to
+    the Rust object (function, method, arguments with white space removed)."""
+    rows = []
+    for fn in sorted((f for f in fns.values() if f.exported), key=lambda f: (FILES.index(f.file), f.line)):
+        for m in re.finditer(r"\b(?:scanner|compiler)\s*\.\s*inner\s*\.\s*([a-z_]+)\s*\(", fn.body):
+            a0 = m.end() - 1
+            a1 = close_of(fn.body, a0)
+            rows.append((fn.name, m.group(1), nows(fn.body[a0 + 1:a1])))
+    if not any(r[0] == "yrx_scanner_set_timeout" for r in rows):
+        raise TranslateError("yrx_scanner_set_timeout: call of scanner.inner.set_timeout(..) not found")
+    return rows
+
+
+def header_timeout_unit():
+    hdr = src("capi/include/yara_x.h")
+    m = re.search(r"((?:^//[^\n]*\n)+)[^\n]*\byrx_scanner_set_timeout\s*\(", hdr, re.M)
+    if not m: raise TranslateError("capi/include/yara_x.h: yrx_scanner_set_timeout not found")
+    u = re.search(r"Sets a timeout \(in ([a-z]+)\)", m.group(1))
+    if not u: raise TranslateError("capi/include/yara_x.h: the comment of yrx_scanner_set_timeout no longer states the unit")
+    return u.group(1)
+
+
 def header_invalid_state():
     """Functions for which capi/include/yara_x.h documents YRX_INVALID_STATE: the comment of the function
     itself says "this function returns `YRX_INVALID_STATE`", or another comment says that a call to it
@@ -918,6 +941,10 @@ def main():
     L.append("(* the helpers pass (ident, value) on: (helper, Rust method, first argument, second argument) *)")
     L.append("Definition global_helpers : list (string * string * string * string) :=\n  [" + "; ".join(f"({q(a)}, {q(b)}, {q(c)}, {q(d)})" for a, b, c, d in helpers) + "].")
     L.append("")
+    L.append("(* `<scanner|compiler>.inner.<method>(<args>)` in exported functions: the value each setter passes on *)")
+    L.append("Definition inner_calls : list (string * string * string) :=\n  [" + ";\n   ".join(f"({q(a)}, {q(b)}, {q(c)})" for a, b, c in inner_calls(fns0)) + "].")
+    L.append("(* unit of the timeout according to the comment of yrx_scanner_set_timeout in yara_x.h *)")
+    L.append(f"Definition header_timeout_unit : string := {q(header_timeout_unit())}.")
     L.append("(* functions documented in capi/include/yara_x.h as returning YRX_INVALID_STATE (block scanning mode);")
     L.append("   the enum's own comment adds: a scanner in multi-block mode used as a standard scanner *)")
     L.append("Definition header_invalid_state : list string := [" + "; ".join(q(f) for f in header_invalid_state()) + "].")
